@@ -7,11 +7,16 @@
    invocation that captures the counter afterwards.  Together with C02's refinement from any
    related state (no further wrap during the run) this gives "every later invocation calls every
    callback then in the list exactly once, removed ones never, added-during skipped".
-   NOT mechanised: the statement about an invocation that is IN PROGRESS at the moment of the
-   wrap (it may additionally call callbacks added during it); covered by the correspondence
-   (flavour `wrap`: the counter is placed 0..3 steps before 2^32 at a random point of re-entrant
-   programs, the pointer-level model — whose wrap branch is the generated one — predicts every
-   trace line of the real list). *)
+   The invocation that is IN PROGRESS at the moment of the wrap (CLTravWrap.v, end of this file): for every interleaving of
+   its own steps with critical sections (its callbacks', other threads') and any number of wraps it calls no callback twice
+   and calls every callback that was in the list when it started and is not removed meanwhile; it may call more (callbacks
+   added during it: the example), which is what the property allows for these invocations only.
+   What remains PARTIAL: this last statement is about sequences of events (sections, wraps, own steps), as C03's traversal
+   theorem is; that the re-entrant interpreter of CLModel.v, when a callback's addition wraps, produces such a sequence for
+   the enclosing invocations is argued, not mechanised (the one-run theorem C19_one_run_across_a_top_level_wrap is for a
+   wrap in a top-level addition).  The correspondence covers it (flavour `wrap`: the counter is placed 0..3 steps before 2^32
+   at a random point of re-entrant programs; the pointer-level model — whose wrap branch is the generated one — predicts
+   every trace line of the real list, invocations in progress at the wrap included). *)
 From Coq Require Import List Arith NArith ZArith Bool.
 From EV Require Import CLModel CLSpec CLHeap CLOps CLRefine CLSim CLMain CLWrap CLWrapSim CLFlag.
 From EV.gen Require GenCL.
@@ -161,3 +166,51 @@ Example C19_wrap_example :
               /\ wrapped st' = true
               /\ rev (trace st') = [ECall 1 5%Z; ECall 2 5%Z; ECall 1 6%Z; ECall 2 6%Z; ECall 3 6%Z; ERet true; ECall 2 7%Z; ECall 3 7%Z; ECall 4 7%Z].
 Proof. eexists. split; [vm_compute; reflexivity|]. split; reflexivity. Qed.
+
+(* ---------- the invocation that is IN PROGRESS when the counter wraps (CLTravWrap.v) ---------- *)
+(* From the point of view of an invocation (or enumeration), everything the callbacks it invokes do to the list — and
+   everything other threads do — is a sequence of critical sections between its own steps (look at the current node;
+   node = node->next); a wrap of the counter is one more such event (the generated overflow branch: every linked node's
+   counter := wrap_rewrite_value).  For EVERY sequence of own steps, sections and wraps, any number of wraps anywhere: the
+   invocation calls no callback twice, and it calls every callback that was in the list when it started, passed its visit
+   test then and is not removed meanwhile — a wrap loses nothing for an invocation in progress.  It may call more: the
+   example shows a callback added during it being called after the wrap, which the property allows for exactly these
+   invocations; invocations that begin after the wrap capture a post-wrap counter (C19_wrap_makes_everything_visible,
+   C02's skip rule). *)
+From EV Require CLTrav CLTravWrap CLConcProofs CLSec.
+
+Theorem C19_invocation_in_progress_across_wraps :
+  forall capt g ids evs,
+    CLHeap.GInv g ids ->
+    (forall z, In z ids -> exists nd, nth_error (CLModel.heap g) z = Some nd /\ GenCL.visit_cond (CLModel.ctr nd) capt = true) ->
+    Forall CLTravWrap.wev_ok evs ->
+    let st := CLTravWrap.wrun capt (CLTrav.tinit g ids) evs in
+    NoDup (CLTrav.tvis st) /\
+    (CLTrav.tcur st = None -> forall z, In z ids -> ~ In z (CLTrav.tgone st) -> In z (CLTrav.tvis st)).
+Proof. exact CLTravWrap.traversal_across_wraps. Qed.
+Print Assumptions C19_invocation_in_progress_across_wraps.
+
+(* whatever it calls is in the list at that moment: a removed callback is never called, and the wrap does not undo a
+   removal *)
+Theorem C19_only_members_are_called :
+  forall capt ids0 st, CLTrav.TInv capt ids0 st ->
+    forall v, In v (CLTrav.tvis (CLTravWrap.wstep capt st (CLTravWrap.WEv CLTrav.TVisit))) -> In v (CLTrav.tvis st) \/ In v (CLTrav.tids st).
+Proof. exact CLTravWrap.visits_only_members. Qed.
+Print Assumptions C19_only_members_are_called.
+
+Theorem C19_removed_stays_removed_across_the_wrap :
+  forall g ids j nd, CLHeap.GInv g ids -> nth_error (CLModel.heap g) j = Some nd -> CLModel.ctr nd = GenCL.removed_marker ->
+    exists nd', nth_error (CLModel.heap (CLWrap.reset_group g)) j = Some nd' /\ CLModel.ctr nd' = GenCL.removed_marker.
+Proof. exact CLTravWrap.removed_stays_removed. Qed.
+Print Assumptions C19_removed_stays_removed_across_the_wrap.
+
+Example C19_in_progress_at_the_wrap_example :
+  let evs := [CLTravWrap.WEv CLTrav.TVisit; CLTravWrap.WEv CLTrav.TAdvance; CLTravWrap.WEv (CLTrav.TOther (CLSec.SBack 3 12%N)); CLTravWrap.WWrap;
+              CLTravWrap.WEv CLTrav.TVisit; CLTravWrap.WEv CLTrav.TAdvance; CLTravWrap.WEv CLTrav.TVisit; CLTravWrap.WEv CLTrav.TAdvance] in
+  let evs' := [CLTravWrap.WEv CLTrav.TVisit; CLTravWrap.WEv CLTrav.TAdvance; CLTravWrap.WEv (CLTrav.TOther (CLSec.SBack 3 12%N));
+               CLTravWrap.WEv CLTrav.TVisit; CLTravWrap.WEv CLTrav.TAdvance; CLTravWrap.WEv CLTrav.TVisit; CLTravWrap.WEv CLTrav.TAdvance] in
+  CLTrav.tvis (CLTravWrap.wrun 11%N (CLTrav.tinit CLTravWrap.wrap_g2 [0; 1]) evs) = [0; 1; 2] /\
+  CLTrav.tcur (CLTravWrap.wrun 11%N (CLTrav.tinit CLTravWrap.wrap_g2 [0; 1]) evs) = None /\
+  CLTrav.tvis (CLTravWrap.wrun 11%N (CLTrav.tinit CLTravWrap.wrap_g2 [0; 1]) evs') = [0; 1] /\
+  map CLModel.ctr (CLModel.heap (CLTrav.tg (CLTravWrap.wrun 11%N (CLTrav.tinit CLTravWrap.wrap_g2 [0; 1]) evs))) = [1%N; 1%N; 1%N].
+Proof. exact CLTravWrap.in_progress_at_the_wrap_example. Qed.
